@@ -342,6 +342,62 @@ def _catalogue_isolation(ctx):
             secs_streams_functions[:] = list(shipped.values())
 
 
+def _container_in_use_is_extended(ctx):
+    """A container that has already resolved functions and decoded messages gets further functions through update(): numbers
+    the catalogue does not know, and replacements of catalogued ones, in any order, with lookups in between. Every one must be
+    found by its S/F numbers and decode from then on; everything else resolves as before."""
+    import secsgem.hsms as H
+    from secsgem.secs.functions import SecsStreamFunction, StreamsFunctions
+    from secsgem.secs.functions._all import secs_streams_functions
+
+    rng = ctx.rng
+    shipped = {(c.stream, c.function): c for c in secs_streams_functions}
+    free = [(s, f) for s in (1, 2, 6, 21, 64, 100, 127) for f in (1, 2, 65, 99, 101, 255) if (s, f) not in shipped]
+    for rnd in range(6):
+        c = StreamsFunctions()
+        expected = dict(shipped)
+        steps = []
+        for step in range(rng.randint(2, 8)):
+            # use the container first: lookups of known and unknown numbers, one decode
+            for s, f in [rng.choice(sorted(shipped)) for _ in range(3)] + [rng.choice(free)]:
+                got = c.function(s, f)
+                ctx.count("catalogue.lookups_in_container_in_use")
+                if got is not expected.get((s, f)):
+                    ctx.violation("lookup-wrong-class:container-in-use", {"S/F": f"S{s}F{f}", "got": getattr(got, "__name__", None),
+                                                                          "want": getattr(expected.get((s, f)), "__name__", None), "updates_before": steps})
+                    return
+            new_number = rng.random() < 0.6
+            s, f = rng.choice(free) if new_number else rng.choice(sorted(shipped))
+            custom = type(f"InUseS{s:02d}F{f:02d}v{step}", (SecsStreamFunction,), {"_stream": s, "_function": f, "_data_format": "< MDLN >"})
+            c.update(custom)
+            expected[(s, f)] = custom
+            steps.append(f"update(S{s}F{f}{' new number' if new_number else ' replaces catalogued'})")
+            ctx.count("catalogue.updates_of_container_in_use")
+            ctx.case(("in-use", rnd, step, s, f, new_number), nontrivial=True)
+            got = c.function(s, f)
+            if got is not custom:
+                ctx.violation("update-does-not-take-effect-in-its-own-container:container-in-use",
+                              {"S/F": f"S{s}F{f}", "got": getattr(got, "__name__", None), "history": steps})
+                return
+            if custom not in c.stream(s):
+                ctx.violation("updated-function-missing-from-its-stream-list", {"S/F": f"S{s}F{f}", "history": steps})
+                return
+            try:
+                body = custom("model").encode()
+                obj = c.decode(H.HsmsMessage(H.HsmsStreamFunctionHeader(1, s, f, False, 0), body))
+                ok = type(obj) is custom and obj.get() == "model"
+                err = None
+            except Exception as exc:  # noqa: BLE001
+                ok, err = False, repr(exc)[:200]
+            if not ok:
+                ctx.violation("updated-function-not-decoded-by-its-container", {"S/F": f"S{s}F{f}", "error": err, "history": steps})
+                return
+    now = {(c2.stream, c2.function): c2 for c2 in secs_streams_functions}
+    if now != shipped:
+        ctx.violation("customising-a-container-rewrites-the-shipped-catalogue", {"where": "container in use"})
+        secs_streams_functions[:] = list(shipped.values())
+
+
 def _equal_values_of_other_kinds(ctx, SF, rounds):
     """Plain 1, 1.0, True (0, 0.0, False) - equal in Python, different kinds - given one after the other, in any order, to functions
     whose items allow an integer, a float and the boolean type: each is read back as its own kind, whatever was sent before.
@@ -383,6 +439,7 @@ def run(ctx):
     if ctx.shard == 0:
         _catalogue_consistency(ctx)
     _catalogue_isolation(ctx)   # before the round trips: they use a fresh default container
+    _container_in_use_is_extended(ctx)
     cat = _items_catalogue()
     SF = StreamsFunctions()
     per_fn = 240 if ctx.quick else 12000
